@@ -15,7 +15,7 @@ if ! (cd "$W" && GOFLAGS=-mod=mod GOPROXY=off go build ./... 2>/dev/null); then
 fi
 T=$(cd "$W" && GOFLAGS=-mod=mod GOPROXY=off go test -vet=off -count=1 ./... 2>&1 | grep -c '^ok')
 for ID in "$@"; do
-  out=$(VERIF_REPO="$W" /verif/check "$ID" quick 2>&1)
+  out=$(VERIF_REPO="$W" ${VERIF_ROOT:-/verif}/check "$ID" quick 2>&1)
   rc=$?
   n=$(echo "$out" | grep -c '^VIOLATION')
   kinds=$(echo "$out" | grep -o 'kind=[a-z().-]*' | sort | uniq -c | sort -rn | head -3 | tr '\n' ' ')
